@@ -1,6 +1,7 @@
 """Generators shared by C07 / C09: schema family, values, layouts."""
 from __future__ import annotations
 
+import collections
 import itertools
 import random
 
@@ -8,6 +9,19 @@ from . import rowlib as R
 from .rowlib import REQ, model
 
 ALPHA = ["|", ";", "\\", " ", "\n", ",", '"', "é", "日", "1", "0", "true", "a", "b", "False", "-"]
+# every character Python's own str.isspace() accepts — the set str.strip() removes (29 code points: the ASCII ones,
+# U+001C–U+001F, U+0085, U+00A0, U+1680, U+2000–U+200A, U+2028, U+2029, U+202F, U+205F, U+3000); taken from the
+# running interpreter, not from the tree under test
+WS_ALL = [chr(c) for c in range(0x110000) if not (0xD800 <= c < 0xE000) and chr(c).isspace()]
+WS_ASCII = [c for c in WS_ALL if ord(c) < 128]
+WS_UNICODE = [c for c in WS_ALL if ord(c) >= 128]
+# invisible, but NOT whitespace for str.strip(): at the edge of a string they are part of the value
+ZERO_WIDTH = ["\u200b", "\ufeff"]
+P_EDGE = 0.12        # a generated string gets such a character at an edge / inside
+P_LONG = 0.03        # a generated list has 10–12 entries (two-digit indices in spread column names)
+LONG = [10, 10, 11, 12]
+_ZW, _EXOTIC = set(ZERO_WIDTH), set(WS_ALL) - {" ", "\n"}
+STRATA = collections.Counter()   # strata of the value generator (main process); folded into ck.count by the checks
 INTS = [0, 1, -1, 10, -7, 42, 2**40, 123456789012345678901, -(10**20)]
 FLOATS = [0.0, 1.5, -2.25, 1e-05, 1e16, 0.1, 3.0, float("inf"), 2.5e-300]
 
@@ -104,11 +118,37 @@ def gen_str(rng, names, clean, nonblank=False):
     else:
         n = rng.choice([0, 1, 1, 2, 2, 3, 4, 6])
         s = "".join(rng.choice(ALPHA) for _ in range(n))
+    if rng.random() < P_EDGE:
+        s = edge_chars(rng, s)
     if clean:
         s = s.strip()
         if nonblank and not s:
             s = rng.choice(["a", "|", ";", "\\", "é", "1"])
+    if s != s.strip():
+        STRATA["strings.whitespace-at-edge(outside the round-trip domain)"] += 1
+        if s.strip(" \t\n\r\x0b\x0c") != s.strip():
+            STRATA["strings.non-ascii-whitespace-at-edge(outside the round-trip domain)"] += 1
+    elif s and (s[0] in _ZW or s[-1] in _ZW):
+        STRATA["strings.zero-width-at-edge(kept by strip)"] += 1
+    if not _EXOTIC.isdisjoint(s.strip()):
+        STRATA["strings.exotic-whitespace-inside"] += 1
     return s
+
+
+def edge_chars(rng, s):
+    """s with whitespace of any kind (every c with c.isspace()) and / or a zero-width space / BOM put at its
+    edges or inside: what str.strip() removes at an edge (all of the former) and what it keeps (the latter)"""
+    def ch():
+        r = rng.random()
+        return rng.choice(ZERO_WIDTH) if r < 0.35 else rng.choice(WS_UNICODE) if r < 0.8 else rng.choice(WS_ASCII)
+
+    where = rng.choice(["left", "right", "both", "both", "inside"])
+    if where == "inside" and len(s) >= 2:
+        i = rng.randint(1, len(s) - 1)
+        return s[:i] + ch() + s[i:]
+    left = "".join(ch() for _ in range(rng.choice([1, 1, 2]))) if where in ("left", "both", "inside") else ""
+    right = "".join(ch() for _ in range(rng.choice([1, 1, 2]))) if where in ("right", "both") else ""
+    return left + s + right
 
 
 def gen_value(rng, t, names, clean, in_list=False, depth=0):
@@ -124,6 +164,9 @@ def gen_value(rng, t, names, clean, in_list=False, depth=0):
         return rng.choice(FLOATS)
     if k == "any":
         n = rng.choice([0, 1, 2, 3])
+        if rng.random() < P_LONG / 2:
+            n = rng.choice(LONG)
+            STRATA["lists.long(10-12).untyped"] += 1
         out = []
         for _ in range(n):
             if rng.random() < 0.6:
@@ -133,6 +176,13 @@ def gen_value(rng, t, names, clean, in_list=False, depth=0):
         return out
     if k == "list":
         n = rng.choice([0, 1, 1, 2, 3]) if not (clean and in_list) else rng.choice([1, 2])
+        if rng.random() < (P_LONG / 2 if in_list else P_LONG):
+            # more than nine entries: the spread columns `f.10.sub`, `f.10.1`, `f.10` follow `f.9.…` in the order of
+            # the list, not in the order of their names as text
+            n = rng.choice(LONG)
+            ek = R.kind(t[1])
+            STRATA["lists.long(10-12)." + ("of-records" if ek == "model" else "of-lists" if ek in ("list", "any") else "of-basic")
+                   + (".inner" if in_list else "")] += 1
         return [gen_value(rng, t[1], names, clean, True, depth + 1) for _ in range(n)]
     v = {}
     for n, ft, d in t[2]:
